@@ -859,8 +859,9 @@ def checkRoutingTour (P : Problem) (skip : Bool) (t : Tour) : Option Code :=
     | s0 :: rest =>
       match s0.acts.head? with
       | none => some .no_first_act
-      | some a0 =>
-        let offset := match a0.time with | some tm => tm.2 | none => s0.departure
+      | some _ =>
+        -- `time_offset`: end of the first activity if it carries a time, else the first stop's departure
+        let offset := tourStart t
         match routeGo P v skip s0.departure 0 s0 rest with
         | .error c => some c
         | .ok (dep, dist) =>
@@ -1124,6 +1125,7 @@ tour statistic = last distance and time between first departure and last departu
 def routingTourOk (P : Problem) (skip : Bool) (t : Tour) : Bool :=
   match findVehicle P t.vehicleId, firstStop t, lastStop t with
   | some v, some f, some l =>
+    (P.profiles[v.profile]?).isSome &&
     (match f.acts.head? with | some a => a.ty == .departure | none => false) &&
     (skip || f.distance == 0) &&
     legsOk P v skip t.stops &&
